@@ -12,6 +12,7 @@ import Driver.Value
 import Driver.OpsClean
 import Driver.OpsFlatten
 import Driver.OpsCopy
+import Driver.OpsNil
 open Lean Driver
 
 def dispatch (op : String) (j : Json) : R Json :=
@@ -27,6 +28,8 @@ def dispatch (op : String) (j : Json) : R Json :=
   | "clean" => opClean j
   | "flatten" => opFlatten j
   | "copy" => opCopy j
+  | "nilcell" => opNilCell j
+  | "isNil" => opIsNil j
   | _ => .error s!"unknown op {op}"
 
 partial def loop (h : IO.FS.Stream) (out : IO.FS.Stream) : IO Unit := do
